@@ -81,8 +81,8 @@ fn base_tx(rng: &mut Rng, pool: &mut Vec<Spendable>, dep: &CellDep, lock: &Scrip
     Some((b.build(), each, mature))
 }
 
-fn mutate_tx(rng: &mut Rng, tx: &TransactionView, chain: &Chain, tip: u64) -> (TransactionView, &'static str) {
-    match rng.below(10) {
+fn mutate_tx(rng: &mut Rng, tx: &TransactionView, chain: &Chain, tip: u64, max_bytes: u64) -> (TransactionView, &'static str) {
+    match rng.below(11) {
         0 => {
             // outputs exceed inputs
             let outs: Vec<CellOutput> = tx.outputs().into_iter().collect();
@@ -131,11 +131,18 @@ fn mutate_tx(rng: &mut Rng, tx: &TransactionView, chain: &Chain, tip: u64) -> (T
             let dep = CellDep::new_builder().out_point(tx.cell_deps().get(0).unwrap().out_point()).dep_type(DepType::DepGroup.into()).build();
             (tx.as_advanced_builder().set_cell_deps(vec![dep]).build(), "dep-group-with-garbage-data")
         }
+        9 => (oversized(tx, max_bytes), "oversized-witness"),
         _ => {
             let _ = chain;
             (tx.as_advanced_builder().set_outputs(vec![]).set_outputs_data(vec![]).build(), "no-outputs")
         }
     }
+}
+
+/// the same transaction (same hash: witnesses are not part of it) with a witness that makes its serialized size exceed the
+/// block size limit: structurally invalid whatever the scripts say
+fn oversized(tx: &TransactionView, max_bytes: u64) -> TransactionView {
+    tx.as_advanced_builder().witness(Bytes::from(vec![0x5au8; max_bytes as usize + 1]).pack()).build()
 }
 
 fn tx_status(w: &World, h: &Byte32) -> (String, Option<u64>) {
@@ -182,6 +189,7 @@ fn scenario(seed: u64, k: u64, out: &Out) {
     let tip = chain.tip();
     let idx = refidx::build(&chain, tip);
     let maturity = w.c().consensus.cellbase_maturity();
+    let max_bytes = w.c().consensus.max_block_bytes();
     let tip_epoch = chain.blocks[tip as usize].epoch();
     let mut pool: Vec<Spendable> = idx
         .live
@@ -221,8 +229,31 @@ fn scenario(seed: u64, k: u64, out: &Out) {
         // a user retries a transaction that is already pending: accepted again, still one pool entry
         if !model.is_empty() && rng.chance(1, 10) {
             let (h, cyc) = model[rng.pick_idx(model.len())].clone();
-            let jtx: Option<ckb_jsonrpc_types::Transaction> = w.c().pending.read().ok().and_then(|p| p.get(&h)).map(|(t, _, _)| t.into());
-            if let Some(jtx) = jtx {
+            let stored: Option<packed::Transaction> = w.c().pending.read().ok().and_then(|p| p.get(&h)).map(|(t, _, _)| t);
+            let jtx: Option<ckb_jsonrpc_types::Transaction> = stored.clone().map(|t| t.into());
+            // ... or a variant of it with the same hash that is not verifiable (witnesses are outside the hash): it must be
+            // rejected like any other invalid transaction and must not replace the verified entry
+            if let (Some(st), true) = (stored.clone(), rng.chance(1, 3)) {
+                let bad = oversized(&st.into_view(), max_bytes);
+                let jbad: ckb_jsonrpc_types::Transaction = bad.data().into();
+                let est = guarded(|| w.c().rpc_chain().estimate_cycles(jbad.clone()));
+                let sent = guarded(|| w.c().rpc_tx().send_transaction(jbad.clone()));
+                out.eval(2);
+                let (e_ok, s_ok) = (matches!(est, Ok(Ok(_))), matches!(sent, Ok(Ok(_))));
+                out.cell(&format!("resubmit-invalid-variant|send={}|estimate={}", s_ok, e_ok));
+                if e_ok || s_ok {
+                    violated = true;
+                    out.violation("C18.R1", &format!("C18|verdict-differs-from-reference|pending-hash-resubmitted-with-oversized-witness|expected=false|send={}|estimate={}", s_ok, e_ok), json!({"scenario": desc}), k);
+                    break;
+                }
+                let after: Option<packed::Transaction> = w.c().pending.read().ok().and_then(|p| p.get(&h)).map(|(t, _, _)| t);
+                let (stt, cycles) = tx_status(&w, &h);
+                if after.as_ref().map(|t| t.as_slice().to_vec()) != stored.as_ref().map(|t| t.as_slice().to_vec()) || stt != "pending" || cycles != Some(cyc) {
+                    violated = true;
+                    out.violation("C18.R2", "C18|pending-entry-changed-by-a-rejected-variant", json!({"scenario": desc, "status": stt, "cycles": cycles}), k);
+                    break;
+                }
+            } else if let Some(jtx) = jtx {
                 let r = guarded(|| w.c().rpc_tx().send_transaction(jtx.clone()));
                 out.eval(1);
                 out.cell(&format!("resubmit|ok={}", matches!(r, Ok(Ok(_)))));
@@ -242,7 +273,7 @@ fn scenario(seed: u64, k: u64, out: &Out) {
         };
         let mutate = rng.chance(2, 5);
         let (tx, op, expect_ok) = if mutate {
-            let (t, op) = mutate_tx(&mut rng, &tx, &chain, tip);
+            let (t, op) = mutate_tx(&mut rng, &tx, &chain, tip, max_bytes);
             (t, op, false)
         } else if !mature {
             (tx, "cellbase-immature", false)
